@@ -634,6 +634,18 @@ def execute_crash(prog, sspec):
         rng.shuffle(plan)
         # keep the victim's k steps in order but interleaved with the contenders' steps
         done_v = 0
+        queued = None
+
+        def queue_a_waiter():
+            # a contender that is already waiting inside a blocking flock() on the lock file when the holder gets to its
+            # release (or dies): what it holds open is the file as it was *then*
+            w = ctl.spawn(dict(FRESH, hold_steps=2))
+            n = 0
+            while w.state == 'parked' and not w.in_critical and n < 400:
+                ctl.step(w)
+                n += 1
+            others.append(w)
+            return w
         for ch in plan:
             if ch.state not in ('parked', 'blocked'):
                 continue
@@ -642,9 +654,13 @@ def execute_crash(prog, sspec):
                     continue
                 done_v += 1
             ctl.step(ch)
+            if prog.get('queued_waiter') and queued is None and victim.in_critical:
+                queued = queue_a_waiter()
         while done_v < k and victim.state in ('parked', 'blocked'):
             ctl.step(victim)
             done_v += 1
+            if prog.get('queued_waiter') and queued is None and victim.in_critical:
+                queued = queue_a_waiter()
         killed_state = {'line': victim.line, 'in_critical': victim.in_critical, 'state': victim.state, 'events': victim.events}
         if victim.state in ('parked', 'blocked'):
             ctl.kill(victim, reap=not prog.get('zombie'))
@@ -657,6 +673,19 @@ def execute_crash(prog, sspec):
             while fresh.state in ('parked', 'blocked') and not fresh.in_critical and n < fresh_budget:
                 ctl.step(fresh)
                 n += 1
+            if fresh.in_critical:
+                # while the newcomer is parked inside its critical section every survivor gets to run on (up to 80 events, or
+                # until it is queued again): none of them may get in as well (the overlap detector judges)
+                for o in list(ctl.children):
+                    if o is fresh:
+                        continue
+                    n = 0
+                    while o.state in ('parked', 'blocked') and not o.in_critical and n < 80:
+                        was_blocked = o.state == 'blocked'
+                        ctl.step(o)
+                        n += 1
+                        if was_blocked and o.state == 'blocked':
+                            break               # still queued behind the newcomer: as it should be
             if not fresh.in_critical and fresh.entries == 0:
                 ctl.viol('C13', 'filelock.stuck_after_crash', 'a fresh process cannot acquire the lock after the holder was killed',
                          f'script {prog["script"]} killed after {k} step(s) at filelock.py:{killed_state["line"]} '
